@@ -333,7 +333,9 @@ impl From<&Ipv4Packet> for Vec<u8> {
     fn from(ipv4: &Ipv4Packet) -> Self {
         let header = ipv4.header.borrow().clone();
         let mut bytes: Vec<u8> = (&header).into();
-        if let Some(inner) = ipv4.inner.borrow().clone() {
+        // an error object stands for a layer that could not be parsed: its bytes are still the raw ones
+        let inner = ipv4.inner.borrow().clone();
+        if let Some(inner) = inner.filter(|i| !matches!(i.as_ref(), Object::Err(_))) {
             let data: Vec<u8> = inner.as_ref().into();
             bytes.extend_from_slice(&data);
         } else {
